@@ -296,8 +296,12 @@ func ParseTemplateSource(src []byte, format ast.Format, imported, noParseShow bo
 		}
 
 		if line < tok.lin || tok.pos.End == lastIndex {
-			if p.cutSpacesToken && numTokenInLine == 1 {
-				cutSpaces(firstText, text)
+			// If the token is not a text and starts on the current line, it
+			// is a further token of the line (for example a comment that ends
+			// on a later line or the last token of the source), so the line
+			// cannot be cut.
+			if p.cutSpacesToken && numTokenInLine == 1 && (text != nil || line < tok.pos.Line) {
+				cutSpaces(firstText, text, tok.pos.End == lastIndex)
 			}
 			line = tok.lin
 			firstText = text
@@ -389,17 +393,26 @@ func ParseTemplateSource(src []byte, format ast.Format, imported, noParseShow bo
 			p.addNode(node)
 			if _, ok := expr.(*ast.Render); ok {
 				p.cutSpacesToken = true
+			} else if line < tok.lin {
+				// The show ends on a later line than it starts: that line
+				// holds a shown value, so it is not a line to cut.
+				line = tok.lin
+				firstText = nil
+				p.cutSpacesToken = false
+				numTokenInLine = 1
 			}
 			tok = p.next()
 
 		// StartURL
 		case tokenStartURL:
+			numTokenInLine++
 			node := ast.NewURL(tok.pos, tok.tag, tok.att, nil)
 			p.addNode(node)
 			tok = p.next()
 
 		// EndURL
 		case tokenEndURL:
+			numTokenInLine++
 			pos := p.parent().Pos()
 			pos.End = tok.pos.End - 1
 			p.removeLastAncestor()
@@ -1933,8 +1946,9 @@ func (p *parsing) addNode(node ast.Node) {
 }
 
 // cutSpaces cuts the leading and trailing spaces from a line. first and last
-// are respectively the initial and the final Text node of the line.
-func cutSpaces(first, last *ast.Text) {
+// are respectively the initial and the final Text node of the line. eof
+// reports whether last ends the source.
+func cutSpaces(first, last *ast.Text, eof bool) {
 	var firstCut int
 	if first != nil {
 		// So that spaces can be cut, first.Text must only contain '', '\t' and '\r',
@@ -1955,7 +1969,7 @@ func cutSpaces(first, last *ast.Text) {
 		// So that the spaces can be cut, last.Text must contain only '', '\t' and '\r',
 		// or before the first '\n' must only contain '', '\t' and '\r'.
 		txt := last.Text
-		var lastCut = len(txt)
+		var lastCut = -1
 		for i := range txt {
 			c := txt[i]
 			if c == '\n' {
@@ -1965,6 +1979,15 @@ func cutSpaces(first, last *ast.Text) {
 			if c != ' ' && c != '\t' && c != '\r' {
 				return
 			}
+		}
+		if lastCut == -1 {
+			// last has no newline: unless it ends the source, it is followed
+			// by another token on the same line (the line's token spans
+			// multiple lines), so the line cannot be cut.
+			if !eof {
+				return
+			}
+			lastCut = len(txt)
 		}
 		last.Cut.Left = lastCut
 	}
